@@ -120,6 +120,25 @@ func runOidcHistory(g *gwInstance, idp *fakeIdP, ops []oidcOp, tag string) (stri
 				cb.claims["email"] = o.user + "@example.com"
 				cb.claims["name"] = "Full Name of " + o.user
 				cb.claims["nickname"] = o.user
+				// and user-name claims that are present but are not a string
+				shape := i
+				for _, ch := range []byte(tag) {
+					shape += int(ch)
+				}
+				switch shape % 7 {
+				case 1:
+					cb.claims["preferred_username"] = nil
+				case 2:
+					cb.claims["upn"] = map[string]interface{}{}
+				case 3:
+					cb.claims["username"] = []interface{}{nil}
+				case 4:
+					cb.claims["unique_name"] = true
+				case 5:
+					cb.claims["preferred_username"] = 4711
+				case 6:
+					cb.claims["upn"] = []interface{}{o.user}
+				}
 			} else if o.user != "" {
 				cb.claims["preferred_username"] = o.user
 			}
@@ -185,6 +204,10 @@ func streamC13(env *runEnv) {
 			// authenticated session: a later failing callback
 			run([]oidcOp{{kind: "connect", sess: 1}, {kind: "callback", sess: 1, stateRef: 1, cb: "ok", user: "alice"}, {kind: "connect", sess: 1},
 				mk(1), {kind: "connect", sess: 1}})
+		}
+		// a user-name claim that is present but not a string is no user-name claim (several shapes)
+		for k := 0; k < 7; k++ {
+			run([]oidcOp{{kind: "connect", sess: 1}, {kind: "callback", sess: 1, stateRef: 1, cb: "noname", user: "mallory"}, {kind: "connect", sess: 1}})
 		}
 		// successful logins: names, state reuse, several sessions
 		for _, u := range []string{"alice", "bob@example.com", "Ünï", "a b", strings.Repeat("n", 200)} {
